@@ -42,12 +42,11 @@ func parseTagAndLength(bytes []byte) (r tagAndLen, off int, e error) {
 			return r, off, e
 		}
 		off++
+		// length octets are an unsigned number
 		var val int64
-		val, e = parseInt64(bytes[off : off+len])
-		if e != nil {
-			return r, off, e
+		for _, b := range bytes[off : off+len] {
+			val = val<<8 | int64(b)
 		}
-		// fmt.Println("bytes[off : off+len]", bytes[off : off+len], "val", val)
 
 		r.len = int64(val)
 		off += len
@@ -71,6 +70,11 @@ func parseInt64(bytes []byte) (r int64, e error) {
 	for _, b := range bytes {
 		r <<= 8
 		r |= int64(b)
+	}
+
+	// two's complement: extend the sign of the most significant content octet
+	if n := len(bytes); n > 0 && n < 8 && bytes[0]&0x80 != 0 {
+		r |= -1 << (8 * uint(n))
 	}
 
 	return r, e
